@@ -76,6 +76,13 @@ func (e *Engine) verifyFuncs(fns []*ssa.Function, opts SolveOpts, filter func(*O
 				comp := decl[j+1 : i]
 				return e.sorts.oldHeapAxiom(comp, "|"+comp+"!old|")
 			}
+			// (declare-const |comp@0| sort): entry version of a heap component
+			if strings.HasPrefix(decl, "(declare-const |") && strings.Contains(decl, "@0| ") {
+				j := strings.Index(decl, "|")
+				k := strings.Index(decl, "@0|")
+				comp := decl[j+1 : k]
+				return e.sorts.entryHeapAxiom(comp, "|"+comp+"@0|", "|$alloc@0|")
+			}
 			return ""
 		})
 		{
